@@ -43,17 +43,65 @@ PINNED = {
     "an exception that leaves a finally block entered by `return` leaves the pending return armed: the next finally block to end in the same fiber performs that return"),
 }
 
+
+OPEN_TITLES = {k: v[2] for k, v in PINNED.items()}
+FIXED_COMMITS = {"K-catch-pop": "790993c", "K-stale-error-ip-a": "4f459d5", "K-stale-error-ip-b": "4f459d5"}
+
+# ---- other properties: (property, id, status, commit, title, scenario dict)
+from sim.props import c09, c15
+OTHER = [
+ ("C09", "K-yield-resumed-without-argument", "fixed", "0c8452d",
+  "a `Fiber.yield(...)` expression resumed by `call()` without an argument evaluated to <class Fiber> instead of nil",
+  {"ir": {"fibers": [{"param": 0, "kind": "gen", "body": [["yield", True], ["ev", 1]]}, {"param": 0, "kind": "gen", "body": [["mix"]]}],
+          "steps": 2, "wrap": False, "sites": 0, "hmod": False}, "tape": [0, 0, 0, 0, 0, 0, 0, 0], "faults": {}}),
+ ("C15", "K-module-count-assertion", "fixed", "e99c58a",
+  "debug assertion `modules.len() == 1` in run(): on a reused interpreter every snippet after one that imported a module panicked (checked builds)",
+  {"ir": {"session": [["snip", [["import", 0]]], ["snip", [["probe", 1]]]], "sites": 1, "mod_sites": {"0": "s1"}}, "faults": {}}),
+ ("C15", "K-exception-in-flight-residue", "fixed", "fa214db",
+  "the VM-wide exception-in-flight flag survived a run that ended with an uncaught exception; the next snippet's try/finally then rethrew a bogus value",
+  {"ir": {"session": [["snip", [["tryfin", 1, "s1"]]], ["snip", [["tryfin", 2, "s2"]]]], "sites": 2, "mod_sites": {}}, "faults": {"s1": {"1": "ValueError"}}}),
+]
+
+
 def main():
-    build.ensure(["checked", "release"])
+    build.ensure(["checked", "release", "checked+hooks"])
     ctx = Ctx("quick")
+    entries = []
     outdir = os.path.join(build.ROOT, "findings", "C08")
     os.makedirs(outdir, exist_ok=True)
     for name, (tree, faults, title) in list(PINNED.items()) + list(FIXED.items()):
         sc = c08.build_scenario(tree, [0] * 16, faults, {"ignore_taint": True, "finding": name, "title": title})
         res = c08.PROP.check_one(sc, ctx, Stats())
         v = res.get("violation")
-        print("%-32s %s" % (name, (v["class"] + ": " + v["msg"][:150]) if v else "PASSES (not a finding on this tree)"))
+        print("C08 %-32s %s" % (name, (v["class"] + ": " + v["msg"][:110]) if v else "passes on this tree"))
         with open(os.path.join(outdir, name + ".json"), "w") as f:
             json.dump(sc, f, indent=1, sort_keys=True)
+        if name in PINNED:
+            entries.append({"id": name, "property": "C08", "status": "open", "title": title, "scenario": "findings/C08/%s.json" % name,
+                            "record": "KNOWN-FINDING: property=C08 %s: %s" % (name, title)})
+        else:
+            entries.append({"id": name, "property": "C08", "status": "fixed", "commit": FIXED_COMMITS[name], "title": title,
+                            "scenario": "findings/C08/%s.json" % name, "record": "fixed: property=C08 %s %s" % (FIXED_COMMITS[name], title)})
+    props = {"C09": c09.PROP, "C15": c15.PROP}
+    for pid, name, status, commit, title, sc in OTHER:
+        d = os.path.join(build.ROOT, "findings", pid)
+        os.makedirs(d, exist_ok=True)
+        sc = dict(sc, finding=name, title=title, ignore_taint=True)
+        res = props[pid].check(sc, ctx) if pid == "C09" else props[pid].check_one(sc, ctx, Stats())
+        v = res.get("violation")
+        print("%s %-32s %s" % (pid, name, (v["class"] + ": " + v["msg"][:110]) if v else "passes on this tree"))
+        with open(os.path.join(d, name + ".json"), "w") as f:
+            json.dump(sc, f, indent=1, sort_keys=True)
+        e = {"id": name, "property": pid, "status": status, "title": title, "scenario": "findings/%s/%s.json" % (pid, name)}
+        if status == "fixed":
+            e["commit"] = commit
+            e["record"] = "fixed: property=%s %s %s" % (pid, commit, title)
+        else:
+            e["record"] = "KNOWN-FINDING: property=%s %s: %s" % (pid, name, title)
+        entries.append(e)
     ctx.close()
+    doc = {"comment": "Committed list of known findings. Never written at run time (regenerate with tools/mk_findings.py). 'open': the pinned scenario still fails in the listed way -> the check prints the KNOWN-FINDING line and exits 0; the generators never produce scenarios in an open entry's region (static predicate) or execute-but-do-not-compare them (dynamic taint, counted). 'fixed' entries suppress nothing: their pinned scenario is an ordinary regression case and fails the check if it ever fails again.",
+           "findings": entries}
+    with open(os.path.join(build.ROOT, "known_findings.json"), "w") as f:
+        json.dump(doc, f, indent=1)
 main()
